@@ -63,7 +63,7 @@ func Attribute(r *Result) *Attribution {
 		case ledger.SetMetadataLogPayload:
 			tag := p.Metadata["tag"]
 			for i, op := range r.Plan.Ops {
-				if op.Kind == OpSaveMeta && op.Meta["tag"] == tag && sameTarget(&op, p.TargetType, p.TargetID) {
+				if op.Kind == OpSaveMeta && op.Meta["tag"] == tag && metaEq(op.Meta, p.Metadata) && sameTarget(&op, p.TargetType, p.TargetID) {
 					cands = append(cands, i)
 				}
 			}
@@ -456,6 +456,10 @@ func CheckReverts(r *Result) *Verdict {
 		if op.Kind != OpRevert || resp == nil || resp.Lost || !resp.Answered || op.DryRun {
 			continue
 		}
+		if !resp.OK && op.Force && resp.ErrClass == "INSUFFICIENT_FUND" {
+			// forced mode lets every account of the reversal go as far below zero as it takes
+			return bad("C10/forced-refused", "forced revert request %s was refused for insufficient funds: %s", opDesc(r, i), resp.ErrText)
+		}
 		if resp.OK {
 			ei, ok := revertedBy[fmt.Sprint(r.RevertTargetOf(i))]
 			if !ok {
@@ -570,7 +574,8 @@ func accMetaEq(a, b map[string]map[string]string) bool {
 // CheckEvents: every publication matches an entry persisted at that moment;
 // every entry of a request that answered success is published at least once.
 func CheckEvents(r *Result) *Verdict {
-	matched := map[int]bool{}
+	// which entries each publication can stand for (content equal, persisted when it was published)
+	cand := make([][]int, len(r.Publications))
 	for pi, pub := range r.Publications {
 		if pub.Lost {
 			continue
@@ -579,24 +584,16 @@ func CheckEvents(r *Result) *Verdict {
 		if err := json.Unmarshal(pub.Payload, &env); err != nil {
 			return bad("C16/undecodable", "publication %d cannot be decoded: %v", pi, err)
 		}
-		found := -1
 		var why string
-		for pass := 0; pass < 2 && found < 0; pass++ {
-			for ei := 0; ei < pub.PersistedLen && ei < len(r.Store.Entries); ei++ {
-				if pass == 0 && matched[ei] {
-					continue // prefer an entry no publication has described yet
-				}
-				ok, reason := eventMatches(env, r.Store.Entries[ei].Log)
-				if ok {
-					found = ei
-					break
-				}
-				if reason != "" {
-					why = reason
-				}
+		for ei := 0; ei < pub.PersistedLen && ei < len(r.Store.Entries); ei++ {
+			ok, reason := eventMatches(env, r.Store.Entries[ei].Log)
+			if ok {
+				cand[pi] = append(cand[pi], ei)
+			} else if reason != "" {
+				why = reason
 			}
 		}
-		if found < 0 {
+		if len(cand[pi]) == 0 {
 			cl := -1
 			if pub.Client >= 0 {
 				cl = pub.Client
@@ -607,23 +604,81 @@ func CheckEvents(r *Result) *Verdict {
 			}
 			return bad(sig, "publication %d (%s by request #%d at step %d, %d entries persisted) matches no persisted entry%s: %s", pi, env.Type, cl, pub.Step, pub.PersistedLen, why, pub.Payload)
 		}
-		matched[found] = true
 	}
+	// at least once: every entry whose producing request lived to answer needs a publication of its own (entries
+	// with equal content are interchangeable, so this is a matching problem: augmenting paths, sizes are tiny)
 	a := Attribute(r)
-	for ei := range r.Store.Entries {
-		if matched[ei] {
-			continue
-		}
-		// published at least once is only owed when the producing request lived to answer
-		owed := false
+	owedHow := map[int]string{}
+	// an entry is owed a publication when the request that produced it lived to answer. Requests with equal content
+	// are interchangeable as producers, and a request produces at most one entry: first the requests that answered
+	// success are matched to entries (augmenting paths again) ...
+	lived := func(i int) bool { resp := r.Responses[i]; return resp != nil && resp.Answered && !resp.Lost }
+	entryOf := map[int]int{} // request -> entry
+	var give func(ei int, seen map[int]bool) bool
+	give = func(ei int, seen map[int]bool) bool {
 		for _, i := range a.ByEntry[ei] {
-			if resp := r.Responses[i]; resp != nil && resp.Answered && resp.OK && !resp.Lost {
-				owed = true
+			if seen[i] || !lived(i) || !r.Responses[i].OK || r.Plan.Ops[i].DryRun {
+				continue
+			}
+			seen[i] = true
+			if other, taken := entryOf[i]; !taken || give(other, seen) {
+				entryOf[i] = ei
+				return true
 			}
 		}
-		if owed {
+		return false
+	}
+	for ei := range r.Store.Entries {
+		if give(ei, map[int]bool{}) {
+			owedHow[ei] = "success"
+		}
+	}
+	// ... then: an entry all of whose possible producers lived to answer was not cut short by a crash either,
+	// whatever its producer answered (a request that persists its entry and then reports an error owes the event too)
+	for ei := range r.Store.Entries {
+		if _, ok := owedHow[ei]; ok || len(a.ByEntry[ei]) == 0 {
+			continue
+		}
+		all, how := true, ""
+		for _, i := range a.ByEntry[ei] {
+			if !lived(i) {
+				all = false
+			} else if !r.Responses[i].OK {
+				how = "error " + r.Responses[i].ErrClass
+			}
+		}
+		if all && how != "" {
+			owedHow[ei] = how
+		}
+	}
+	pubsOf := map[int][]int{}
+	for pi, es := range cand {
+		for _, ei := range es {
+			pubsOf[ei] = append(pubsOf[ei], pi)
+		}
+	}
+	pubTaken := map[int]int{} // publication -> entry
+	var try func(ei int, seen map[int]bool) bool
+	try = func(ei int, seen map[int]bool) bool {
+		for _, pi := range pubsOf[ei] {
+			if seen[pi] {
+				continue
+			}
+			seen[pi] = true
+			if other, taken := pubTaken[pi]; !taken || try(other, seen) {
+				pubTaken[pi] = ei
+				return true
+			}
+		}
+		return false
+	}
+	for ei := range r.Store.Entries {
+		if _, owed := owedHow[ei]; !owed {
+			continue
+		}
+		if !try(ei, map[int]bool{}) {
 			b, _ := json.Marshal(r.Store.Entries[ei].Log)
-			return bad("C16/not-published", "persisted entry %d was never published although its request answered success: %s", ei, b)
+			return bad("C16/not-published", "persisted entry %d was never published although its request lived to answer (%s): %s", ei, owedHow[ei], b)
 		}
 	}
 	return nil
